@@ -223,7 +223,8 @@ def proof_obligations(ctx):
     opt = dict(entry="h_match_options", enforce="rtosc_match_options", defines={"DISPATCH_C": raw, "C05_OPT_N": str(n)},
                instr=nm, mode="bounded", replayable=False,
                bound="pattern and message strings of <= %d bytes (incl. NUL), arbitrary content and start offsets" % n,
-               timeout=1500)
+               timeout=2400)
+    sat = ["--sat-solver", "cadical"] if n > 12 else []
     return [
         Obl("C05.rtosc_match_number.contract", "C05", P, entry="h_match_number", enforce="rtosc_match_number",
             replace=["atoi"], loops=True, defines={"DISPATCH_C": inj}, termination=True, functions=["rtosc_match_number"],
@@ -241,9 +242,10 @@ def proof_obligations(ctx):
             replace=["rtosc_match_options", "rtosc_match_number"], loops=True, defines={"DISPATCH_C": inj},
             instr=nm, timeout=2400, mem_gb=12, cbmc=["--sat-solver", "cadical"],
             mode="bounded", bound="canary (vacuity guard)", replayable=False),
+        # n=12: 10 s (MiniSat); n=24: 316 s with CaDiCaL, 333..1500 s with MiniSat depending on machine load
         Obl("C05.rtosc_match_options.contract", "C05", P, termination=True, functions=["rtosc_match_options"],
-            cbmc=["--unwind", str(n + 1), "--unwinding-assertions"], **opt),
-        Obl("C05.rtosc_match_options.canary", "C05", P, canary=True, cbmc=["--unwind", str(n + 1)], **opt),
+            cbmc=["--unwind", str(n + 1), "--unwinding-assertions"] + sat, **opt),
+        Obl("C05.rtosc_match_options.canary", "C05", P, canary=True, cbmc=["--unwind", str(n + 1)] + sat, **opt),
     ]
 
 
